@@ -129,9 +129,13 @@ theorem parSearchLoop_flags (c : Cfg) (hc : c.mode = .search) (ran : List Item) 
       cases sr with
       | pipe => simp [writesOk] at hh
       | err =>
-        simp only [parSearchLoop, parSearchStep]
-        have := ih (errMessage c { st with searched := true } (.file id)) ht
-        simp [this, isMatch, isFault, isFile, hc]
+        cases wr with
+        | pipe => simp [writesOk] at hh
+        | err => simp [writesOk] at hh
+        | ok =>
+          simp only [parSearchLoop, parSearchStep]
+          have := ih (errMessage c { st with searched := true } (.file id)) ht
+          simp [this, isMatch, isFault, isFile, hc]
       | ok m =>
         cases wr with
         | pipe => simp [writesOk] at hh
@@ -174,8 +178,12 @@ theorem parSearchLoop_quit (c : Cfg) (ran : List Item) (st : St) (h : WritesOk r
       cases sr with
       | pipe => simp [writesOk] at hh
       | err =>
-        simp only [parSearchLoop, parSearchStep, Bool.false_or] at hq ⊢
-        exact ih _ ht hq
+        cases wr with
+        | pipe => simp [writesOk] at hh
+        | err => simp [writesOk] at hh
+        | ok =>
+          simp only [parSearchLoop, parSearchStep, Bool.false_or] at hq ⊢
+          exact ih _ ht hq
       | ok m =>
         cases wr with
         | pipe => simp [writesOk] at hh
@@ -397,7 +405,7 @@ theorem mem_errMessage (c : Cfg) (st : St) (d e : Diag) (h : e ∈ (errMessage c
     · exact .inr (by simpa using h)
   · exact .inl h
 
-theorem searchLoop_diags (c : Cfg) (hm : c.mode = .search) (items : List Item) (st : St) :
+theorem searchLoop_diags (c : Cfg) (hm : c.mode = .search) (hp : c.parallel = false) (items : List Item) (st : St) :
     ∀ d ∈ (searchLoop c items st).1.diags, d ∈ st.diags ∨ d ∈ items.filterMap (diagOf c) := by
   induction items generalizing st with
   | nil => intro d hd; exact .inl hd
@@ -426,8 +434,12 @@ theorem searchLoop_diags (c : Cfg) (hm : c.mode = .search) (items : List Item) (
         rcases ih _ d hd with h | h
         · rcases mem_errMessage _ _ _ _ h with h | h
           · exact .inl h
-          · exact .inr (by simp [diagOf, hm, h])
-        · exact .inr (by simp only [List.filterMap_cons, diagOf, hm, beq_self_eq_true, if_true]; exact List.mem_cons_of_mem _ h)
+          · exact .inr (by simp [diagOf, hm, hp, h])
+        · refine .inr ?_
+          rw [List.filterMap_cons]
+          split
+          · exact h
+          · exact List.mem_cons_of_mem _ h
       | ok m =>
         simp only [searchLoop] at hd
         split at hd
@@ -454,13 +466,27 @@ theorem parSearchLoop_diags (c : Cfg) (hm : c.mode = .search) (hp : c.parallel =
       | file id sr wr =>
         cases sr with
         | pipe =>
-          rcases mem_errMessage _ _ _ _ he with h | h
-          · exact .inl h
-          · exact .inr (by simp [diagOf, hm, hp, h])
+          cases wr with
+          | pipe => exact .inl he
+          | ok =>
+            rcases mem_errMessage _ _ _ _ he with h | h
+            · exact .inl h
+            · exact .inr (by simp [diagOf, hm, hp, h])
+          | err =>
+            rcases mem_errMessage _ _ _ _ he with h | h
+            · exact .inl h
+            · exact .inr (by simp [diagOf, hm, hp, h])
         | err =>
-          rcases mem_errMessage _ _ _ _ he with h | h
-          · exact .inl h
-          · exact .inr (by simp [diagOf, hm, h])
+          cases wr with
+          | pipe => exact .inl he
+          | ok =>
+            rcases mem_errMessage _ _ _ _ he with h | h
+            · exact .inl h
+            · exact .inr (by simp [diagOf, hm, hp, h])
+          | err =>
+            rcases mem_errMessage _ _ _ _ he with h | h
+            · exact .inl h
+            · exact .inr (by simp [diagOf, hm, hp, h])
         | ok m =>
           cases wr with
           | ok => exact .inl he
@@ -655,8 +681,8 @@ theorem parSearchStep_core (c : Cfg) (x : Item) (a b : St) (h : Core a b) :
   | skip => exact h
   | file id sr wr =>
     cases sr with
-    | pipe => exact h
-    | err => exact h
+    | pipe => cases wr <;> exact h
+    | err => cases wr <;> exact h
     | ok m => cases wr <;> exact ⟨by simp [parSearchStep, h.1], by simp [parSearchStep, h.2]⟩
 
 theorem parSearchLoop_core (c : Cfg) (items : List Item) (a b : St) (h : Core a b) :
@@ -677,7 +703,7 @@ theorem parSearchLoop_drop (c : Cfg) (pre post : List Item) (f : Item)
     | skip => simp [isFault] at hf
     | file id sr wr =>
       cases sr with
-      | err => exact ⟨rfl, rfl⟩
+      | err => cases wr <;> exact ⟨rfl, rfl⟩
       | pipe => simp [isFault] at hf
       | ok m => simp [isFault] at hf
   | cons x xs ih => simp only [List.cons_append, parSearchLoop]; exact ih _
@@ -793,7 +819,11 @@ theorem parSearchLoop_out (c : Cfg) (hm : c.mode = .search) (items : List Item) 
     | file id sr wr =>
       cases sr with
       | pipe => simp [writesOk] at hh
-      | err => simp [parSearchLoop, parSearchStep, ih _ ht, List.filterMap_cons, hm]
+      | err =>
+        cases wr with
+        | pipe => simp [writesOk] at hh
+        | err => simp [writesOk] at hh
+        | ok => simp [parSearchLoop, parSearchStep, ih _ ht, List.filterMap_cons, hm]
       | ok m =>
         cases wr with
         | pipe => simp [writesOk] at hh
@@ -832,5 +862,41 @@ theorem filesPar_out (c : Cfg) (hm : c.mode = .files) (hq : c.qam = false) (item
       | pipe => cases sr <;> simp [writesOk] at hh
       | err => cases sr <;> simp [writesOk] at hh
       | ok => cases sr <;> simp [filesParWalk, hq, printThread, ih _ ht, List.filterMap_cons, hm]
+
+/-! ### `--stats` -/
+
+theorem searchStats_ok (c : Cfg) (hq : c.qam = false) (items : List Item) (matched : Bool) (s : Stats)
+    (h : WritesOk items) :
+    searchStats c items matched s = some ⟨s.searches + items.countP isOk, s.withMatch + items.countP isMatch⟩ := by
+  induction items generalizing matched s with
+  | nil => simp [searchStats]
+  | cons x xs ih =>
+    have ht := h.tail
+    have hh := h.head
+    cases x with
+    | walkErr => simp [searchStats, ih _ _ ht, isOk, isMatch, List.countP_cons]
+    | skip => simp [searchStats, ih _ _ ht, isOk, isMatch, List.countP_cons]
+    | file id sr wr =>
+      cases sr with
+      | pipe => simp [writesOk] at hh
+      | err => simp [searchStats, ih _ _ ht, isOk, isMatch, List.countP_cons]
+      | ok m =>
+        simp only [searchStats, hq, Bool.and_false, Bool.false_eq_true, if_false]
+        rw [ih _ _ ht]
+        cases m <;> simp [Stats.add, isOk, isMatch, List.countP_cons] <;> omega
+
+theorem parStats_eq (items : List Item) (s : Stats) :
+    parStats items s = ⟨s.searches + items.countP isOk, s.withMatch + items.countP isMatch⟩ := by
+  induction items generalizing s with
+  | nil => simp [parStats]
+  | cons x xs ih =>
+    cases x with
+    | walkErr => simp [parStats, ih, isOk, isMatch, List.countP_cons]
+    | skip => simp [parStats, ih, isOk, isMatch, List.countP_cons]
+    | file id sr wr =>
+      cases sr with
+      | pipe => simp [parStats, ih, isOk, isMatch, List.countP_cons]
+      | err => simp [parStats, ih, isOk, isMatch, List.countP_cons]
+      | ok m => cases m <;> simp [parStats, ih, Stats.add, isOk, isMatch, List.countP_cons] <;> omega
 
 end RgVerif.Exit
